@@ -421,7 +421,8 @@ def run_case(chk, ob, ip, prog, case, props, extra_judge=None):
                 n_before = len(HE.default_forward(msgs[:k]))
             chk.report(ob, '%s/%s' % (prop, key), '%s [script %s]' % (text, case.label()),
                        {'script': case.label(), 'client_bytes_hex': hexs, 'outcome': list(data['outcome'])},
-                       {'commands': [cmd], 'expect': ['h_violation', prop, key, (case.cache if prop == 'C08' else bool(case.cache)), inc, hexs, n_before,
+                       {'commands': [cmd] * (6 if (len(case.roles) > 1 or (case.shards and any(len(rs) > 1 for rs in case.shards))) else 1),
+                        'expect': ['h_violation', prop, key, (case.cache if prop == 'C08' else bool(case.cache)), inc, hexs, n_before,
                                                       [bytes(model_byte(m, b) for b in dm).hex() for dm in (denied_msgs if case.plugins else [])],
                                                       [bytes(model_byte(m, b) for mm in eff for b in mm).hex()] if case.plugins else None,
                                                       [list(rs) for rs in (case.shards or [case.roles])] if case.custom else None,
@@ -895,7 +896,16 @@ def h_violation(prop, key, cache_on, incomplete, hexs, n_before=None, denied_hex
     """Native confirmation: the same reference model, evaluated on what the Rust reference backends and the two client
     sockets observed when the concrete script was played against the compiled pgcat."""
     def f(res):
-        r = res[0]
+        # (when the pool has several servers the native choice among them is random: the scenario is then run several times and
+        # counts as reproduced if any run shows the violation)
+        last = (False, 'no native run')
+        for r in res:
+            last = f1(r)
+            if last[0]:
+                return last
+        return last
+
+    def f1(r):
         if 'error' in r or 'panic' in r:
             return False, 'native: %r' % (r,)
         data = HE.collect_native(r)
